@@ -29,12 +29,15 @@ func zzAnyInt(name string) sdk.Int {
 func ZZ_C05_EndBlockEvent() {
 	o := keeper.ZZStateOpts{MaxPool: 0, MaxBatches: 1, MaxPerBatch: 1, ConcreteIds: true, Chains: []types.ChainID{"ethereum"}}
 	if vrt.Thorough() {
-		o = keeper.ZZStateOpts{MaxPool: 1, MaxBatches: 1, MaxPerBatch: 2, ConcreteIds: true, SymDecimals: true}
+		o = keeper.ZZStateOpts{MaxPool: 1, MaxBatches: 1, MaxPerBatch: 1, ConcreteIds: true, DecChoice: true} // decimals {6,18,24}; symbolic 0..24 or two transfers per batch: > 25 min
 	}
 	st := keeper.ZZBuildState(o)
 	env := st.Env()
 	k, ctx, chain := env.K, env.Ctx, st.Chain()
-	idA, _ := st.Ids()
+	idA, idB := st.Ids()
+	if vrt.Bool("event.second-token") {
+		idA = idB // the second token has 6 external decimals: amounts are scaled by 10^12 on the way in
+	}
 	// one bonded validator: its vote is a quorum
 	oper := sdk.ValAddress(vrt.Bytes("oper", 20))
 	env.Staking.Vals = append(env.Staking.Vals, keeper.ZZVal{Oper: oper, Power: 10, Bonded: true})
@@ -65,6 +68,14 @@ func ZZ_C05_EndBlockEvent() {
 	vrt.Assume(ev.Validate(chain) == nil)
 	k.ZZSetVoteRecord(ctx, chain, ev, []string{oper.String()}, false)
 	vrt.Reach("c05.endblock.event")
+	if ttc, ok := ev.(*types.TransferToChainEvent); ok && ttc.Amount.BigInt().BitLen() <= 128 {
+		// a relay deposit of an ordinary amount with ANY fee: the fee is an unchecked argument of the contract's
+		// transferToChain, anybody can make the validators report an arbitrary one
+		p := vrt.Panics(func() { EndBlocker(ctx, k) })
+		vrt.Assert("c05.endblock.event.no-panic[transfer to chain: amount below 2^128, any fee]", !p)
+		vrt.Reach("c05.endblock.event.done")
+		return
+	}
 	EndBlocker(ctx, k)
 	zzDebug(env, k, ctx, chain)
 	vrt.Reach("c05.endblock.event.done")
@@ -74,7 +85,7 @@ func ZZ_C05_EndBlockEvent() {
 func ZZ_C05_EndBlockExpiry() {
 	o := keeper.ZZStateOpts{MaxPool: 1, MaxBatches: 0, ConcreteIds: true, Chains: []types.ChainID{"ethereum"}}
 	if vrt.Thorough() {
-		o = keeper.ZZStateOpts{MaxPool: 2, MaxBatches: 1, MaxPerBatch: 1, SymDecimals: true}
+		o = keeper.ZZStateOpts{MaxPool: 2, MaxBatches: 0, DecChoice: true}
 	}
 	st := keeper.ZZBuildState(o)
 	keeper.ZZOrigins(st)
